@@ -49,6 +49,7 @@ func (x *Exec) fail(n ast.Node, format string, args ...any) {
 }
 
 type State struct {
+	label string // set on a state leaving through a labelled break/continue: the label it targets
 	vars map[types.Object]*Term
 	st   map[string]*Term
 	pc   []*Term
@@ -68,6 +69,7 @@ func (s *State) clone() *State {
 		n.pseudo[k] = v
 	}
 	n.pc = append([]*Term(nil), s.pc...)
+	n.label = s.label
 	return n
 }
 
@@ -130,6 +132,7 @@ type Exec struct {
 	deferIdx   map[*ast.DeferStmt]int
 	inlineStack []*inlineFrame
 	pendingKeyVar *types.Var
+	pendingLabel  string // label of the statement about to be executed (loop or switch)
 	entryReqs     []*Term // the translated preconditions (replay: judged on concrete inputs)
 	pendingIndVar *types.Var
 	identAlias  map[string]*types.Var // contract identifier -> local it was matched to (renamed local)
@@ -820,7 +823,10 @@ func (x *Exec) execStmt(s *State, stmt ast.Stmt, entry *State) outcomes {
 		return outcomes{}
 	case *ast.BranchStmt:
 		if st.Label != nil {
-			x.fail(st, "labelled branch")
+			if st.Tok != token.BREAK && st.Tok != token.CONTINUE {
+				x.fail(st, "goto")
+			}
+			s.label = st.Label.Name
 		}
 		switch st.Tok {
 		case token.BREAK:
@@ -871,7 +877,12 @@ func (x *Exec) execStmt(s *State, stmt ast.Stmt, entry *State) outcomes {
 	case *ast.GoStmt:
 		x.fail(st, "goroutine")
 	case *ast.LabeledStmt:
-		x.fail(st, "label")
+		switch st.Stmt.(type) {
+		case *ast.ForStmt, *ast.RangeStmt, *ast.SwitchStmt, *ast.TypeSwitchStmt:
+			x.pendingLabel = st.Label.Name
+			return x.execStmt(s, st.Stmt, entry)
+		}
+		x.fail(st, "label on a statement that is neither a loop nor a switch")
 	}
 	x.fail(stmt, "unsupported statement %T", stmt)
 	return outcomes{}
@@ -2037,6 +2048,8 @@ func (x *Exec) runLoop(s *State, entry *State, node ast.Node, bodyNode ast.Node,
 	lc := &loopCtx{ord: ord, pos: bodyNode.Pos(), pseudo: map[string]*Term{}, indVar: x.pendingIndVar, keyVar: x.pendingKeyVar}
 	x.pendingIndVar = nil
 	x.pendingKeyVar = nil
+	myLabel := x.pendingLabel
+	x.pendingLabel = ""
 	if lc.indVar != nil {
 		lc.indVarMonotone = true
 		ast.Inspect(bodyNode, func(n ast.Node) bool {
@@ -2177,6 +2190,10 @@ func (x *Exec) runLoop(s *State, entry *State, node ast.Node, bodyNode ast.Node,
 		}
 	}
 	o := x.execBlock(b, body, entry)
+	// labelled branches that target an enclosing statement pass through this loop
+	mineCont, otherCont := splitByLabel(o.cont, myLabel)
+	mineBrk, otherBrk := splitByLabel(o.brk, myLabel)
+	o.cont, o.brk = mineCont, mineBrk
 	ends := x.merge(append(o.normal, o.cont...))
 	for _, e := range ends {
 		if post != nil {
@@ -2199,7 +2216,7 @@ func (x *Exec) runLoop(s *State, entry *State, node ast.Node, bodyNode ast.Node,
 	}
 	res := outcomes{}
 	after := append([]*State{exit}, o.brk...)
-	for _, a := range after {
+	for _, a := range append(append(append([]*State(nil), after...), otherBrk...), otherCont...) {
 		np := map[string]*Term{}
 		for k, v := range s.pseudo {
 			if strings.Contains(k, "_") && !strings.HasSuffix(k, ordSuffix) {
@@ -2210,7 +2227,22 @@ func (x *Exec) runLoop(s *State, entry *State, node ast.Node, bodyNode ast.Node,
 		x.restoreInnermostAliases(a)
 	}
 	res.normal = x.merge(after)
+	res.brk, res.cont = otherBrk, otherCont
 	return res
+}
+
+// splitByLabel separates the states that leave through an unlabelled branch or one labelled with this statement's own
+// label (their label is cleared) from those that target an enclosing statement.
+func splitByLabel(sts []*State, my string) (mine, other []*State) {
+	for _, st := range sts {
+		if st.label == "" || st.label == my {
+			st.label = ""
+			mine = append(mine, st)
+		} else {
+			other = append(other, st)
+		}
+	}
+	return
 }
 
 // restoreInnermostAliases re-creates the unsuffixed pseudo variables from the innermost enclosing loop.
@@ -2440,6 +2472,8 @@ func (x *Exec) execRange(s *State, st *ast.RangeStmt, entry *State) outcomes {
 }
 
 func (x *Exec) execSwitch(s *State, st *ast.SwitchStmt, entry *State) outcomes {
+	myLabel := x.pendingLabel
+	x.pendingLabel = ""
 	if st.Init != nil {
 		o := x.execStmt(s, st.Init, entry)
 		s = o.normal[0]
@@ -2475,7 +2509,9 @@ func (x *Exec) execSwitch(s *State, st *ast.SwitchStmt, entry *State) outcomes {
 		b.assume(cond)
 		o := x.execBlock(b, c.Body, entry)
 		res.normal = append(res.normal, o.normal...)
-		res.normal = append(res.normal, o.brk...) // break leaves the switch
+		mineB, otherB := splitByLabel(o.brk, myLabel)
+		res.normal = append(res.normal, mineB...) // break leaves the switch
+		res.brk = append(res.brk, otherB...)
 		res.cont = append(res.cont, o.cont...)
 		notPrev = append(notPrev, Not(cond))
 	}
@@ -2486,7 +2522,9 @@ func (x *Exec) execSwitch(s *State, st *ast.SwitchStmt, entry *State) outcomes {
 	if deflt != nil {
 		o := x.execBlock(d, deflt.Body, entry)
 		res.normal = append(res.normal, o.normal...)
-		res.normal = append(res.normal, o.brk...)
+		mineB, otherB := splitByLabel(o.brk, myLabel)
+		res.normal = append(res.normal, mineB...)
+		res.brk = append(res.brk, otherB...)
 		res.cont = append(res.cont, o.cont...)
 	} else {
 		res.normal = append(res.normal, d)
@@ -2496,6 +2534,8 @@ func (x *Exec) execSwitch(s *State, st *ast.SwitchStmt, entry *State) outcomes {
 }
 
 func (x *Exec) execTypeSwitch(s *State, st *ast.TypeSwitchStmt, entry *State) outcomes {
+	myLabel := x.pendingLabel
+	x.pendingLabel = ""
 	if st.Init != nil {
 		o := x.execStmt(s, st.Init, entry)
 		s = o.normal[0]
@@ -2557,7 +2597,9 @@ func (x *Exec) execTypeSwitch(s *State, st *ast.TypeSwitchStmt, entry *State) ou
 		}
 		o := x.execBlock(b, c.Body, entry)
 		res.normal = append(res.normal, o.normal...)
-		res.normal = append(res.normal, o.brk...)
+		mineB, otherB := splitByLabel(o.brk, myLabel)
+		res.normal = append(res.normal, mineB...)
+		res.brk = append(res.brk, otherB...)
 		res.cont = append(res.cont, o.cont...)
 		notPrev = append(notPrev, Not(cond))
 	}
@@ -2573,7 +2615,9 @@ func (x *Exec) execTypeSwitch(s *State, st *ast.TypeSwitchStmt, entry *State) ou
 		}
 		o := x.execBlock(d, deflt.Body, entry)
 		res.normal = append(res.normal, o.normal...)
-		res.normal = append(res.normal, o.brk...)
+		mineB, otherB := splitByLabel(o.brk, myLabel)
+		res.normal = append(res.normal, mineB...)
+		res.brk = append(res.brk, otherB...)
 		res.cont = append(res.cont, o.cont...)
 	} else {
 		res.normal = append(res.normal, d)
